@@ -477,7 +477,7 @@ def answerOrder (ts : List Trx) : List Section → List Nat → List Nat → Opt
   | [], _, acc => some acc.reverse
   | s :: rest, used, acc =>
     let found :=
-      if !s.mid.isEmpty then findIdx (fun i t => !used.contains i && t.mid = some s.mid) ts
+      if !s.mid.isEmpty then findIdx (fun i t => !used.contains i && t.kind = s.kind && t.mid = some s.mid) ts
       else findIdx (fun i t => !used.contains i && t.kind = s.kind) ts
     match found with
     | some i => answerOrder ts rest (i :: used) (i :: acc)
